@@ -248,6 +248,16 @@ func ByName(name string) (Ind, bool) {
 	return Ind{}, false
 }
 
+// declared is the idle period an indicator declares: its IdlePeriod method where the type has
+// one, else the period its formula implies (the few types without such a method; the day one of
+// them grows the method, the method is what callers align by).
+func declared(a any, implied int) int {
+	if d, ok := a.(interface{ IdlePeriod() int }); ok {
+		return d.IdlePeriod()
+	}
+	return implied
+}
+
 // warm runs one complete computation over n canned values on every input, discards the result and
 // waits until the goroutines of that pipeline are gone: closing of the outputs does not mean that
 // the upstream stages have finished (they are drained in the background), and assigning the
